@@ -93,6 +93,11 @@ def corpus_cases():
              choices="D D D D D D D D D D D W0 W0 W0 W0 W1 W1 W1 i2 Z Z Z i20 Z Z Z".split()),
         # batch ^C before the first connection
         dict(base, fanout=1, hosts=two, opts=dict(opts, batch=1), choices="D D D i2 Z Z Z".split()),
+        # a refused connect (the worker's failure path must still go through its epilogue), without and with ^C / -b ^C
+        dict(base, fanout=1, hosts=[dict(one[0], connect="refuse")] + two[1:], opts=opts, choices=[]),
+        dict(base, fanout=1, hosts=[dict(one[0], connect="refuse")] + two[1:], opts=opts, choices=[], signals=[[9, SIGINT]]),
+        dict(base, fanout=2, hosts=[dict(one[0], connect="refuse")] + two[1:], opts=dict(opts, batch=1), choices=[],
+             signals=[[14, SIGINT]]),
         # the first two again with the copy personality (workers are _rcp_thread)
         dict(base, fanout=1, hosts=one, opts=dict(opts, pers="pcp"),
              choices="D D D D D D i2 Z Z Z i20 Z Z Z W0".split()),
@@ -253,6 +258,18 @@ def run(ctx, PROPS, LEVEL):
         # (runs with a command time-out are followed by the LTS too: the watchdog's lock / kill / unlock and the read loop
         #  that is given up - `W.lockTF`, result DSH_FAILED - are in it; WHEN the watchdog acts is left to the schedule)
         batches = [project_sig(r, variant, wform, sform) if ok else None for r, ok in zip(results, doms)]
+        ob = dist.setdefault("observations", {"stdio_calls_checked": 0, "listings_compared": 0, "watchdog_kills_inside_mutex": 0,
+                                              "read_loops_given_up": 0})
+        for b in batches:
+            for l in b or ():
+                if l.startswith("obs emit"):
+                    ob["stdio_calls_checked"] += 1
+                elif l.startswith("obs list"):
+                    ob["listings_compared"] += 1
+                elif l == "obs gkill":
+                    ob["watchdog_kills_inside_mutex"] += 1
+                elif l.endswith(" lockTF"):
+                    ob["read_loops_given_up"] += 1
         idx = [i for i, b in enumerate(batches) if b is not None]
         verdicts = accept_all(ctx, [batches[i] for i in idx]) if idx else []
         for i, bad in zip(idx, verdicts):
